@@ -439,7 +439,9 @@ def byte_accounting(ctx, prop):
             resets = [e for e in writes if e.value == '0']
             others = [e for e in writes if e not in decs and e not in resets]
             empty = any(a[0] == 'truthy' and plain_key(a[1]) == 'self.store.items' and not pol for a, pol, _ in p.lits)
-            ok = len(decs) == 1 and not others and (not resets or (empty and writes.index(resets[0]) > writes.index(decs[0])))
+            ok = not others and (
+                (len(decs) == 1 and (not resets or (empty and writes.index(resets[0]) > writes.index(decs[0])))) or
+                (len(decs) == 0 and len(resets) == 1 and empty))     # released and reset by one store (value if queue else 0)
             ctx.ob(rule, ok)
             if not ok:
                 ctx.violation(rule, '%s::Port.run' % fr.module.relpath, 'byte_size writes %s per dequeue' % [e.value for e in writes],
